@@ -142,10 +142,24 @@ theorem inv_step (s s' : St) (a : Act) (h : UInv s) (hs : step s a = some s') : 
           split at hc'
           · cases hc'; simp at hd'
           · exact h10 k' c' hc' hd'
-  | loopClose =>
+  | loopDrop =>
     simp only [step] at hs
     split at hs
     · cases hs
+    · rename_i p rest hp
+      have hrest : ∀ x, x ∈ rest → x ∈ s.packets := by intro x hx; rw [hp]; simp [hx]
+      have hsorted : (∀ x ∈ rest, p < x) ∧ rest.Pairwise (· < ·) := by rw [hp] at h4; simpa using h4
+      split at hs
+      · split at hs
+        · split at hs
+          · injection hs with hs; subst hs
+            constructor <;> simp only [PC.got] at * <;> grind
+          · cases hs
+        · cases hs
+      · cases hs
+  | loopClose k =>
+    simp only [step] at hs
+    split at hs
     · split at hs
       · split at hs
         · injection hs with hs; subst hs
@@ -154,6 +168,7 @@ theorem inv_step (s s' : St) (a : Act) (h : UInv s) (hs : step s a = some s') : 
           constructor <;> simp only [upd, PC.got] at * <;> grind
       · injection hs with hs; subst hs
         constructor <;> simp only [upd, PC.got] at * <;> grind
+    · cases hs
   | read k =>
     simp only [step] at hs
     split at hs
